@@ -80,6 +80,50 @@ let run_closerace (parts : string list) : string =
       (Buffer.contents marks) (if results = [] then "-" else String.concat "," results)
       (int_of_nat (r_open_count !s)) (List.length !dtask) (b2i (rs_closed !s))
       (if !spec_fail = [] then "ok" else "FAIL:" ^ String.concat "+" (List.rev !spec_fail))
+  end else if fld f "tr" = "quic" then begin
+    let s = ref sdq_init in
+    let xtask : int list ref = ref [] in
+    let task_of i = let a = List.rev !xtask in if i < List.length a then Some (List.nth a i) else None in
+    let closed_seen = ref false in
+    let holding st = List.length (List.filter qd_holds_raw (sq_calls st)) in
+    let dialing st = List.length (List.filter (fun d -> match d.qd_stage with QdDialing -> true | _ -> false) (sq_calls st)) in
+    List.iter (fun e ->
+      let x = match e with
+        | EvX -> Some XSpawn
+        | EvDok j -> Some (XDialOk (nat_of_int j))
+        | EvDfail j -> Some (XDialFail (nat_of_int j))
+        | EvReply i -> (match task_of i with Some t -> Some (XReply (nat_of_int t)) | None -> None)
+        | EvPerr i -> (match task_of i with Some t -> Some (XPeerErr (nat_of_int t)) | None -> None)
+        | EvCancel i -> (match task_of i with Some t -> Some (XCancel (nat_of_int t)) | None -> None)
+        | EvIdle -> Some XIdle
+        | EvClose -> Some XClose in
+      let applied = match x with
+        | None -> false
+        | Some x ->
+          let ntasks = List.length (sq_tasks !s) in
+          let ncalls = List.length (sq_calls !s) in
+          (match sdq_big honour !s x with
+           | Some s' ->
+             if e = EvX then xtask := ntasks :: !xtask;
+             s := s';
+             if !closed_seen then note_spec (List.length (sq_calls !s) = ncalls) "dial-after-close";
+             true
+           | None -> false) in
+      if e = EvClose then closed_seen := true;
+      Buffer.add_char marks (if applied then 'o' else 's');
+      note_spec (sdq_quiet honour !s) "not-quiescent(fuel)";
+      (* C18_no_leak_quic on the model's own state *)
+      if sq_closed !s then note_spec (int_of_nat (sdq_open_count !s) = holding !s) "open-after-close") evs;
+    let results = List.map (fun t -> res_str (sdq_result !s (nat_of_int t))) (List.rev !xtask) in
+    if sq_closed !s then begin
+      (* C18_quic_waiters_woken / fail_not_hang: nobody waits after Close unless its (ignore-mode) dial is still running *)
+      let npend = List.length (List.filter (fun r -> r = "pend") results) in
+      if npend > 0 then note_spec (not honour && dialing !s > 0) "pend-after-close"
+    end;
+    Printf.sprintf "ev=%s res=%s open=%d dials=%d closed=%d || spec=%s"
+      (Buffer.contents marks) (if results = [] then "-" else String.concat "," results)
+      (int_of_nat (sdq_open_count !s)) (List.length (sq_calls !s)) (b2i (sq_closed !s))
+      (if !spec_fail = [] then "ok" else "FAIL:" ^ String.concat "+" (List.rev !spec_fail))
   end else begin
     let s = ref sdp_init in
     let xtask : int list ref = ref [] in
